@@ -65,10 +65,7 @@ class C23(Check):
         assert line_col("ab\ncd", 3) == (2, 1) and line_col("ab\ncd", 2) == (1, 3)
 
     def pinned(self, tier):
-        n = 3 if tier == "quick" else 30
-        for i, c in enumerate(gens.corpus_slice(n, maxsize=500 if tier == "quick" else 1500, offset=2)):
-            c.update(templater="raw", rules="all", rule_options={}, fix=False)
-            yield c
+        yield from lintlib.pinned_lint_cases(tier, per_dialect=3, mutants_per_dialect=3, templates=100, salt=23, fix_mode=False)
         for i, r in enumerate(gens.templater_corpus()):
             if len(r["sql"]) < 700:
                 yield {"dialect": "ansi", "templater": "jinja", "sql": r["sql"], "context": dict(gens.JCTX), "rules": "all",
@@ -79,7 +76,7 @@ class C23(Check):
             lambda t: dict(t[0], fix=False, cli_format=(t[2] if t[1] == 0 else None)))
 
     def examples(self, tier):
-        return 80 if tier == "quick" else 3000
+        return 35 if tier == "quick" else 1500
 
     def run_case(self, case):
         templater = case.get("templater", "raw")
@@ -106,7 +103,7 @@ class C23(Check):
             nchecked += 1
             for clause, detail in pos_problems(d, src, "violation"):
                 out.fail(f"{code}: {detail}", clause=clause, rule=code, templated=templater != "raw",
-                         zero=(d["start_line_no"], d["start_line_pos"]) == (0, 0))
+                         nocol=d["start_line_pos"] == 0)
             for f in d.get("fixes", []) or []:
                 for clause, detail in pos_problems(f, src, "fix"):
                     out.fail(f"{code}: {detail}", clause=clause, rule=code, templated=templater != "raw")
@@ -117,7 +114,10 @@ class C23(Check):
                 if 0 <= ss.start <= len(src) and line_col(src, ss.start) != (v.line_no, v.line_pos):
                     out.fail(f"{code}: reported {(v.line_no, v.line_pos)} but segment starts at offset {ss.start} = "
                              f"{line_col(src, ss.start)}", clause="linecol-vs-segment", rule=code, templated=templater != "raw")
+                # (only for segments whose source range has the length of their text: a literal segment that spans
+                # several loop iterations has a shorter source range by construction)
                 if (pm.is_literal() and seg.raw and "start_file_pos" in d and "end_file_pos" in d
+                        and ss.stop - ss.start == len(seg.raw)
                         and res.tree is not None and 0 <= d["start_file_pos"] <= d["end_file_pos"] <= len(src)
                         and pm.templated_file is res.templated_file
                         and res.templated_file.templated_str[pm.templated_slice] == seg.raw):
@@ -129,7 +129,9 @@ class C23(Check):
             out.nontrivial = True
         if nchecked:
             out.label("has-violations")
-        if case.get("cli_format") and templater == "raw":
+        if case.get("cli_format") and templater == "raw" and case["sql"].strip():
+            # (empty files are not compared: whether the CLI lints an empty file at all is an entry-point
+            # question, C19's, not a position question)
             self.run_cli(out, case, res)
         return out
 
